@@ -61,9 +61,9 @@ def key_for(layer: int, block: int) -> int:
     return (0xD8 << 52) | (layer << 36) | (block + 1)
 
 
-def header_bytes(seq: int, wguid: bytes, good: bool = True, log_offset: int = MB, log_length: int = MB) -> bytes:
+def header_bytes(seq: int, wguid: bytes, good: bool = True, log_offset: int = MB, log_length: int = MB, log_guid: bytes = bytes(16)) -> bytes:
     sig = b"head" if good else b"hea\x00"
-    body = struct.pack("<4sIQ16s16s16sHHIQ", sig, 0, seq, wguid, bytes([0xDA]) * 16, bytes(16), 0, 1, log_length, log_offset)
+    body = struct.pack("<4sIQ16s16s16sHHIQ", sig, 0, seq, wguid, bytes([0xDA]) * 16, log_guid, 0, 1, log_length, log_offset)
     raw = body.ljust(4096, b"\x00")
     crc = crc32c(raw)
     return raw[:4] + struct.pack("<I", crc) + raw[8:]
@@ -186,8 +186,10 @@ def build(spec: dict):
     s1, s2 = spec.get("seq", [1, 2])
     bad = spec.get("bad_other_header", False)
     w1, w2 = bytes([0xA1]) * 16, bytes([0xA2]) * 16
-    fh.put(1 * KB64, header_bytes(s1, w1, good=not (bad and s1 < s2)))
-    fh.put(2 * KB64, header_bytes(s2, w2, good=not (bad and s2 < s1)))
+    # the older header copy may still carry the LogGuid of a log that was replayed before the current header was written
+    stale = bytes([0x10]) * 16 if spec.get("stale_log_guid") else bytes(16)
+    fh.put(1 * KB64, header_bytes(s1, w1, good=not (bad and s1 < s2), log_guid=stale if s1 < s2 else bytes(16)))
+    fh.put(2 * KB64, header_bytes(s2, w2, good=not (bad and s2 < s1), log_guid=stale if s2 < s1 else bytes(16)))
 
     meta_off = spec["regions"]["metadata"] * MB
     bat_off = spec["regions"]["bat"] * MB
